@@ -85,7 +85,7 @@ pub fn generate(out: &mut Out, tier: &str, seed: u64) {
     let mut rng = Rng::new(seed);
     let alphabet: Vec<char> = vec!['a', 'z', ' ', '\u{e9}', '\u{3b1}', '\u{20ac}', '\u{4e2d}', '\u{1f600}', '\u{10348}'];
     let intervals = [0usize, 1, 2, 3, 7, 100];
-    let ntexts = if thorough { 1500 } else { 150 };
+    let ntexts = if thorough { 6000 } else { 150 };
     let maxlen = if thorough { 16 } else { 12 };
     for ti in 0..ntexts {
         let len = if ti < 13 { ti.min(maxlen) } else { rng.below(maxlen + 1) };
